@@ -267,6 +267,16 @@ func createCompiledRouteHandler(route *ast.Route, bytecode []byte, wsHub *websoc
 			return writeJSON(ctx, status, body)
 		}
 
+		// The declared return type is a contract in compiled mode too: a
+		// result that violates it is a server fault, as in the interpreter.
+		if route.ReturnType != nil {
+			checker := interpreter.NewTypeChecker()
+			checker.SetTypeDefs(typeDefs)
+			if err := checker.CheckType(vm.ToInterface(result), route.ReturnType); err != nil {
+				return writeInternalError(ctx, fmt.Errorf("return type mismatch in route %s %s: %v", route.Method, route.Path, err))
+			}
+		}
+
 		// Set response
 		return writeJSON(ctx, http.StatusOK, result)
 	}
